@@ -51,6 +51,8 @@ def observe_row(row):
         info.kind = "mixed"
     elif "zero" in classes:
         info.kind = "zero"
+    elif classes and classes <= {"ws_error", None} and "ws_error" in classes:
+        info.kind = "plus"      # an added line consisting of whitespace only
     elif "file" in classes:
         info.kind = "file"
     elif classes & {"hunk", "hunk_file", "hunk_ln"}:
